@@ -98,6 +98,8 @@ static void run(int scenario, int si, int li, Shape shape, Later later)
     if (senderLevel != TrustLevel::Undecided) {
         manager.addKeys(ENC, sender, { senderKey }, senderLevel);
     }
+    // the sender's account always has ANOTHER device whose key is authenticated: what counts is the key that sent the message
+    manager.addKeys(ENC, sender, { QByteArray("key-of-another-device-of-the-sender-account") }, TrustLevel::Authenticated);
     QXmppMessage msg;
     msg.setFrom(from);
     QXmppE2eeMetadata md;
